@@ -695,12 +695,19 @@ def sort_table_nonzero(ctx, fns):
                 if not (w.get("k") == "local" and norm_.nonzero_at(ix, v, w["id"])):
                     return False
             elif v.get("k") == "ctor" and callee(v).endswith("Type::Array"):
-                ws = [x for x in walk(v) if x.get("k") == "local"]
-                for x in ws:
-                    init = simple_let_init(defs, x["id"])
-                    cc = strip_try(init) if init is not None else {}
-                    if not (cc.get("k") == "mcall" and callee(cc) == P + "get_bv_width"):
+                def from_table(e_, depth_=0):
+                    """every width inside is read back from the sort table (through lets and struct literals)"""
+                    for x in [y for y in walk(e_) if y.get("k") == "local"]:
+                        init = simple_let_init(defs, x["id"])
+                        cc = strip_try(init) if init is not None else {}
+                        if cc.get("k") == "mcall" and callee(cc) == P + "get_bv_width":
+                            continue
+                        if cc.get("k") in ("struct", "ctor") and depth_ < 3 and from_table(cc, depth_ + 1):
+                            continue
                         return False
+                    return True
+                if not from_table(v):
+                    return False
             else:
                 return False
     return True
